@@ -84,6 +84,9 @@ def oracle(case):
             heard.append({'callable': k, 'cls': type(ev).__name__, 'name': ev.name,
                           'data': {x: ev.data[x] for x in sorted(ev.data)},
                           'plain': type(ev) is Event})
+            if k == 0:
+                # a receiver may do what it wants with its copy: nobody else may notice
+                ev.data['tampered'] = True
         return fn
     callables = [make_callable(0), make_callable(1)]
     viol, labels = [], {}
@@ -137,6 +140,11 @@ def oracle(case):
                 viol.extend(out)
                 break
             if r == 'abort':
+                break
+            cons = rec['result']['event'] if rec['result'] else None
+            if cons is not None and 'tampered' in cons['data']:
+                viol.append({'prop': PROP, 'kind': 'delivered-copy-shared-with-another-party',
+                             'step': idx, 'detail': {'interpreter': i, 'consumed': cons}})
                 break
             sent = [e for e in sends_from_log(d.by, rec['log']) if e['cls'] == 'InternalEvent']
             # what MacroStep says was sent (internal events) must be what was delivered
